@@ -383,6 +383,18 @@ func (o *Oracle) judgeProxyCallback(e *Exchange, pol *Policy) {
 	}
 	redeemOK := redeem != nil && redeem.Status == 200 && redeem.Err == "" && redeem.Injected == ""
 	profile := firstChild(e, "profile")
+	if e.Overlap {
+		// … and the group answer that counts is the one about this code's user
+		profile = nil
+		for _, c := range e.Children {
+			if c.Link == L2 && endpointOf(c.Path) == "profile" && codeSess != nil {
+				if pq, err := url.ParseQuery(c.RawQuery); err == nil && pq.Get("email") == codeSess.Email {
+					profile = c
+					break
+				}
+			}
+		}
+	}
 	flowOK := sp != nil && cp != nil && state != csrf && *sp == *cp
 	variant := fmt.Sprintf("state=%v|csrf=%v|same=%v|eq=%v|code=%v|redeem=%v|err=%v", sp != nil, cp != nil, state == csrf && state != "", sp != nil && cp != nil && *sp == *cp, codeSess != nil, redeemOK, q.Get("error") != "")
 
@@ -574,6 +586,9 @@ func (o *Oracle) judgeProxySignOut(e *Exchange, pol *Policy) {
 	ru, err := url.Parse(q.Get("redirect_uri"))
 	if err != nil || !strings.EqualFold(ru.Host, e.Host) {
 		o.violate(e, "C19.A1-proxy-clears-and-redirects", fmt.Sprintf("return address %q is not on the request host %q", q.Get("redirect_uri"), e.Host))
+	}
+	if n := len(q["redirect_uri"]); n != 1 {
+		o.violate(e, "C19.A1-proxy-clears-and-redirects", fmt.Sprintf("the sign-out redirect carries %d return addresses (%v)", n, q["redirect_uri"]), "facet", "several-return-addresses")
 	}
 	if !validSig(q.Get("redirect_uri"), q.Get("sig"), q.Get("ts"), ProxyClientSecret, o.abs(e.Done)) {
 		o.violate(e, "C19.A1-proxy-clears-and-redirects", "return address is not correctly signed with the client secret and a fresh timestamp")
